@@ -1722,4 +1722,204 @@ example : kernActsOn dsWitness "grek" = true ∧ kernActsOn dsWitness "latn" = t
     holdsDs dsWitness [("DFLT", "dflt", "kern"), ("DFLT", "dflt", "mark"), ("grek", "dflt", "kern"), ("grek", "dflt", "mark"),
                        ("latn", "dflt", "kern"), ("latn", "dflt", "mark")] = true := by decide
 
+
+/-! ### mergeScripts: the merged buckets are pairwise disjoint -/
+
+/-- when the `for scripts in rest` loop reports "nothing merged", nothing changed and every bucket is disjoint from
+`common` -/
+theorem absorb_false (c : SSet) (rest : List SSet) (h : (absorb c rest).2.2 = false) :
+    absorb c rest = (c, rest, false) ∧ ∀ s ∈ rest, sdisjoint s c = true := by
+  induction rest with
+  | nil => simp [absorb]
+  | cons s r ih =>
+    unfold absorb at h ⊢
+    by_cases hd : sdisjoint s c = true
+    · simp only [hd, if_true] at h ⊢
+      obtain ⟨h1, h2⟩ := ih h
+      rw [h1]
+      refine ⟨rfl, ?_⟩
+      intro x hx
+      rcases mem_cons.mp hx with rfl | hx
+      · exact hd
+      · exact h2 x hx
+    · simp [hd] at h
+
+theorem absorb_length (c : SSet) (rest : List SSet) :
+    (absorb c rest).2.1.length ≤ rest.length ∧ ((absorb c rest).2.2 = true → (absorb c rest).2.1.length < rest.length) := by
+  induction rest generalizing c with
+  | nil => simp [absorb]
+  | cons s r ih =>
+    unfold absorb
+    by_cases hd : sdisjoint s c = true
+    · simp only [hd, if_true, length_cons]
+      obtain ⟨h1, h2⟩ := ih c
+      exact ⟨by omega, fun h => by have := h2 h; omega⟩
+    · simp only [hd, length_cons]
+      have := ih (sunion c s)
+      simp
+      omega
+
+/-- a pass that reports "nothing merged" returns its input, and the input is pairwise disjoint -/
+theorem mergePass_false (n : Nat) (sets : List SSet) (hn : sets.length ≤ n) (h : (mergePass n sets).2 = false) :
+    (mergePass n sets).1 = sets ∧ sets.Pairwise (fun a b => sdisjoint b a = true) := by
+  induction n generalizing sets with
+  | zero =>
+    have : sets = [] := by simpa using hn
+    subst this; simp [mergePass]
+  | succ n ih =>
+    cases sets with
+    | nil => simp [mergePass]
+    | cons c rest =>
+      simp only [mergePass, Bool.or_eq_false_iff] at h ⊢
+      obtain ⟨ha, hp⟩ := h
+      obtain ⟨ha1, ha2⟩ := absorb_false c rest ha
+      rw [ha1] at hp ⊢
+      simp only [length_cons] at hn
+      obtain ⟨h1, h2⟩ := ih rest (by omega) hp
+      simp only [h1, pairwise_cons, true_and]
+      exact ⟨ha2, h2⟩
+
+theorem mergePass_length (n : Nat) (sets : List SSet) :
+    (mergePass n sets).1.length ≤ sets.length ∧ ((mergePass n sets).2 = true → (mergePass n sets).1.length < sets.length) := by
+  induction n generalizing sets with
+  | zero => 
+    simp [mergePass]
+  | succ n ih =>
+    cases sets with
+    | nil => simp [mergePass]
+    | cons c rest =>
+      simp only [mergePass, length_cons, Bool.or_eq_true]
+      have h1 := absorb_length c rest
+      have h2 := ih (absorb c rest).2.1
+      refine ⟨by omega, ?_⟩
+      rintro (h | h)
+      · have := h1.2 h; omega
+      · have := h2.2 h; omega
+
+theorem mergeLoop_disjoint (n : Nat) (sets : List SSet) (hn : sets.length ≤ n) :
+    (mergeLoop n sets).Pairwise (fun a b => sdisjoint b a = true) := by
+  induction n generalizing sets with
+  | zero =>
+    have : sets = [] := by simpa using hn
+    subst this; simp [mergeLoop]
+  | succ n ih =>
+    simp only [mergeLoop]
+    by_cases hm : (mergePass sets.length sets).2 = true
+    · simp only [hm, if_true]
+      apply ih
+      have := (mergePass_length sets.length sets).2 hm
+      omega
+    · have hm' : (mergePass sets.length sets).2 = false := by simpa using hm
+      simp only [hm']
+      obtain ⟨h1, h2⟩ := mergePass_false sets.length sets (Nat.le_refl _) hm'
+      rw [h1]; exact h2
+
+/-- **mergeScripts, first half**: for every list of bucket keys the merged buckets are pairwise disjoint (the fuel of the
+model's `while merged` loop, the number of buckets, always suffices: a pass that merges shortens the list). -/
+theorem C20_merge_disjoint (keys : List SSet) :
+    (mergeSets keys).Pairwise (fun a b => sdisjoint b a = true) :=
+  mergeLoop_disjoint _ _ (Nat.le_refl _)
+
+/-- the seeded-defect shape: ONE pass over [A,B], [C,D], [B,C] leaves overlapping buckets; the loop repairs it -/
+example : (mergePass 3 [["A", "B"], ["C", "D"], ["B", "C"]]).1 = [["A", "B", "C"], ["C", "D"]] ∧
+    mergeSets [["A", "B"], ["C", "D"], ["B", "C"]] = [["A", "B", "C", "D"]] := by decide
+
+example : holdsMerge [(["A", "B"], [0]), (["C", "D"], [1]), (["B", "C"], [2])] [(["A", "B", "C"], [0, 1, 2]), (["C", "D"], [])] = false ∧
+    (mergeScripts [(["A", "B"], [0]), (["C", "D"], [1]), (["B", "C"], [2])]).toOption = some [(["A", "B", "C", "D"], [0, 1, 2])] ∧
+    holdsMerge [(["A", "B"], [0]), (["C", "D"], [1]), (["B", "C"], [2])] [(["A", "B", "C", "D"], [0, 1, 2])] = true := by decide
+
+/-! ### mergeScripts: every input bucket is inside one merged bucket -/
+
+theorem mem_sunion_left {a b : SSet} {x : Tag} (h : x ∈ a) : x ∈ sunion a b := mem_append_left _ h
+
+theorem mem_sunion_right {a b : SSet} {x : Tag} (h : x ∈ b) : x ∈ sunion a b := by
+  unfold sunion
+  by_cases ha : x ∈ a
+  · exact mem_append_left _ ha
+  · exact mem_append_right _ (mem_filter.mpr ⟨h, by simpa using ha⟩)
+
+theorem absorb_cover (c : SSet) (rest : List SSet) :
+    (∀ x ∈ c, x ∈ (absorb c rest).1) ∧
+    ∀ s ∈ rest, s ∈ (absorb c rest).2.1 ∨ ∀ x ∈ s, x ∈ (absorb c rest).1 := by
+  induction rest generalizing c with
+  | nil => simp [absorb]
+  | cons s r ih =>
+    unfold absorb
+    by_cases hd : sdisjoint s c = true
+    · simp only [hd, if_true]
+      obtain ⟨h1, h2⟩ := ih c
+      refine ⟨h1, ?_⟩
+      intro s' hs'
+      rcases mem_cons.mp hs' with rfl | hs'
+      · exact Or.inl mem_cons_self
+      · rcases h2 s' hs' with h | h
+        · exact Or.inl (mem_cons_of_mem _ h)
+        · exact Or.inr h
+    · simp only [hd]
+      obtain ⟨h1, h2⟩ := ih (sunion c s)
+      refine ⟨fun x hx => h1 x (mem_sunion_left hx), ?_⟩
+      intro s' hs'
+      rcases mem_cons.mp hs' with rfl | hs'
+      · exact Or.inr (fun x hx => h1 x (mem_sunion_right hx))
+      · exact h2 s' hs'
+
+theorem mergePass_cover (n : Nat) (sets : List SSet) (hn : sets.length ≤ n) :
+    ∀ s ∈ sets, ∃ b ∈ (mergePass n sets).1, ∀ x ∈ s, x ∈ b := by
+  induction n generalizing sets with
+  | zero =>
+    have : sets = [] := by simpa using hn
+    subst this; simp
+  | succ n ih =>
+    cases sets with
+    | nil => simp
+    | cons c rest =>
+      simp only [length_cons] at hn
+      obtain ⟨h1, h2⟩ := absorb_cover c rest
+      have hl := (absorb_length c rest).1
+      have ih' := ih (absorb c rest).2.1 (by omega)
+      intro s hs
+      simp only [mergePass]
+      rcases mem_cons.mp hs with rfl | hs
+      · exact ⟨_, mem_cons_self, h1⟩
+      · rcases h2 s hs with h | h
+        · obtain ⟨b, hb, hsub⟩ := ih' s h
+          exact ⟨b, mem_cons_of_mem _ hb, hsub⟩
+        · exact ⟨_, mem_cons_self, h⟩
+
+theorem mergeLoop_cover (n : Nat) (sets : List SSet) :
+    ∀ s ∈ sets, ∃ b ∈ mergeLoop n sets, ∀ x ∈ s, x ∈ b := by
+  induction n generalizing sets with
+  | zero => intro s hs; exact ⟨s, hs, fun _ h => h⟩
+  | succ n ih =>
+    intro s hs
+    obtain ⟨b, hb, hsub⟩ := mergePass_cover sets.length sets (Nat.le_refl _) s hs
+    simp only [mergeLoop]
+    by_cases hm : (mergePass sets.length sets).2 = true
+    · simp only [hm, if_true]
+      obtain ⟨b', hb', hsub'⟩ := ih _ b hb
+      exact ⟨b', hb', fun x hx => hsub' x (hsub x hx)⟩
+    · have hm' : (mergePass sets.length sets).2 = false := by simpa using hm
+      simp only [hm']
+      exact ⟨b, hb, hsub⟩
+
+/-- **mergeScripts, second half**: every non-empty input bucket key is contained in one merged bucket -/
+theorem C20_merge_cover (keys : List SSet) (k : SSet) (hk : k ∈ keys) (hne : k.isEmpty = false) :
+    ∃ b ∈ mergeSets keys, ∀ x ∈ k, x ∈ b :=
+  mergeLoop_cover _ _ k (mem_filter.mpr ⟨hk, by simp [hne]⟩)
+
+/-- converse direction across scripts on the four-script witness (Latn-Grek, Cyrl-Armn, Grek-Cyrl): mark under armn
+without kern is a failure although no pair has BOTH glyphs in armn; with kern present it holds; a pair of mixed direction
+does not count. -/
+def xWitness : XIn :=
+  { own := [("a", ["latn"]), ("alpha", ["grek"]), ("beta", ["grek"]), ("becy", ["cyrl"]), ("vecy", ["cyrl"]),
+            ("aybarm", ["armn"]), ("alefhebr", ["hebr"]), ("period", ["*"])]
+    pairs := [("a", "alpha"), ("vecy", "aybarm"), ("beta", "becy"), ("a", "alefhebr"), ("period", "alefhebr")]
+    dirs := [("latn", "LTR"), ("grek", "LTR"), ("cyrl", "LTR"), ("armn", "LTR"), ("hebr", "RTL")] }
+
+example : kernActsOnX xWitness "armn" = true ∧ kernActsOnX xWitness "hebr" = false ∧
+    holdsX xWitness [("DFLT", "dflt", "kern"), ("DFLT", "dflt", "mark"), ("armn", "dflt", "mark"),
+                     ("cyrl", "dflt", "kern"), ("cyrl", "dflt", "mark"), ("hebr", "dflt", "mark")] = false ∧
+    holdsX xWitness [("DFLT", "dflt", "kern"), ("DFLT", "dflt", "mark"), ("armn", "dflt", "kern"), ("armn", "dflt", "mark"),
+                     ("cyrl", "dflt", "kern"), ("cyrl", "dflt", "mark"), ("hebr", "dflt", "mark")] = true := by decide
+
 end Ufo2ft.C20
